@@ -214,6 +214,8 @@ func c22(r *core.Run) {
 	r.Saw(core.FuncName(rd))
 	r.Check("C22.Y1", core.Key("C22.Y1", rd, "depends only on arguments and thresholds"), pos, pure,
 		"recalcDepth is a function of (peer set, radius, filter) and the package thresholds only", "recalcDepth reads or writes state other than its arguments and the package thresholds")
+	// the depth is computed from the peer set's bins: they must hold exactly the peers
+	psliceRules(r, "C22")
 }
 
 // mustPassToExit: every path from ev to a Return passes an instruction satisfying pred.
@@ -642,4 +644,6 @@ func c24(r *core.Run) {
 				"an inbound peer is admitted only when its bin is not oversaturated, or it is protected, or this is a boot node, or the connection is forced", "an unprotected inbound peer can be admitted into an oversaturated bin")
 		}
 	}
+	// known / connected lists are PSlices: a batched AddPeers must not drop or duplicate peers
+	psliceRules(r, "C24")
 }
